@@ -828,6 +828,11 @@ pub fn gen_case(seed: u64, id: u64) -> Case {
                         ("1 div 0", "Infinity"), ("-1 div 0", "-Infinity"), ("0 div 0", "NaN"), ("1 div 2", "0.5"), ("3", "3"), ("2 * 3", "6"),
                         ("-0", "0"), ("7 mod 4", "3"), ("1.50", "1.5"), ("-(1 div 0)", "-Infinity"), ("number('x')", "NaN"), ("0.5 + 0.25", "0.75"), ("ceiling(-0.5)", "0"), ("round(-0.5)", "0"), ("round(-1.5)", "-1"),
                         ("round(2.5)", "3"), ("0 * -1", "0"), ("round(-0.2)", "0"), ("floor(-0.5)", "-1"),
+                        // integers beyond the range of machine integers: all digits, no exponent.  Only values whose exact
+                        // decimal expansion is also their shortest round-trip form (XPath 1.0 does not say which of the two
+                        // an integer beyond 2^53 is printed with: 2^63 may come out as 9223372036854776000)
+                        ("100000000000000000000 * 3", "300000000000000000000"), ("10000000000000000000", "10000000000000000000"), ("-20000000000000000000", "-20000000000000000000"),
+                        ("5000000000 * 10000000000", "50000000000000000000"), ("1000000 * 1000000", "1000000000000"), ("1 div 4", "0.25"), ("-2147483649", "-2147483649"), ("4294967296 * 2", "8589934592"),
                     ]);
                     expr = e.to_string();
                     scalar = Some(v.to_string());
@@ -1085,6 +1090,16 @@ pub fn gen_case(seed: u64, id: u64) -> Case {
                 continue;
             }
             vkids.push(k);
+        }
+        // `]]` and a `>` written as a reference: two adjacent pieces of character data that must not come out as `]]>`
+        if rng.pct(6) {
+            vkids.clear();
+            vkids.push(G::Text(format!("{}]]", rng.ps(&["", "a", "é"]))));
+            let (s, c) = *rng.pick(&[("&#62;", ">"), ("&#x3E;", ">"), ("&#x3e;", ">")]);
+            vkids.push(G::CharRef(s.to_string(), c.to_string()));
+            if rng.pct(50) {
+                vkids.push(G::Text("z".into()));
+            }
         }
         for k in &vkids {
             render(k, false, &mut value);
